@@ -1,91 +1,355 @@
+// h_c36: correspondence harness for C36 (classic histograms -> custom-bucket native histograms
+// while parsing).  Every case is one generated exposition parsed twice by the real code: once
+// without conversion (the reference entry stream, which is also the model's input) and once
+// through NHCBParser (textparse.New with ConvertClassicHistogramsToNHCB for text/plain and
+// OpenMetrics payloads, NewNHCBParser around a scripted in-memory Parser for entry streams the
+// text formats cannot express: native histograms, several exemplars, start timestamps).
 package main
 
 import (
-	"errors"
 	"fmt"
-	"io"
+	"math"
+	"os"
+	"sort"
+	"strconv"
+	"strings"
 
-	"github.com/prometheus/prometheus/model/exemplar"
 	"github.com/prometheus/prometheus/model/labels"
 	"github.com/prometheus/prometheus/model/textparse"
+
+	"verif/harness/internal/gallina"
+	"verif/harness/internal/gen"
 )
 
-func dump(input, ct string, opts textparse.ParserOptions) {
-	p, err := textparse.New([]byte(input), ct, labels.NewSymbolTable(), opts)
-	if err != nil {
-		panic(err)
+type desc struct {
+	*scenario
+	Payload string   `json:"payload,omitempty"`
+	Entries []string `json:"entries,omitempty"`
+	Classes []string `json:"classes"`
+	BaseErr string   `json:"base_error,omitempty"`
+	OutErr  string   `json:"out_error,omitempty"`
+	Out     []string `json:"out"`
+}
+
+type unrepresentable struct{ v float64 }
+
+func zlit(v int64) string {
+	if v < 0 {
+		return "(zn " + strconv.FormatInt(-v, 10) + ")"
 	}
-	for {
-		e, err := p.Next()
-		if errors.Is(err, io.EOF) {
-			fmt.Println("EOF")
-			return
-		}
-		if err != nil {
-			fmt.Println("ERR", err)
-			return
-		}
-		var l labels.Labels
-		switch e {
-		case textparse.EntrySeries:
-			m, ts, v := p.Series()
-			p.Labels(&l)
-			t := "nil"
-			if ts != nil {
-				t = fmt.Sprint(*ts)
-			}
-			fmt.Printf("S %s ts=%s v=%g %s st=%d", m, t, v, l, p.StartTimestamp())
-		case textparse.EntryHistogram:
-			m, ts, h, fh := p.Histogram()
-			p.Labels(&l)
-			t := "nil"
-			if ts != nil {
-				t = fmt.Sprint(*ts)
-			}
-			fmt.Printf("H %s ts=%s %v %v %s st=%d", m, t, h, fh, l, p.StartTimestamp())
-		case textparse.EntryType:
-			n, t := p.Type()
-			fmt.Printf("TYPE %s %s", n, t)
-		default:
-			fmt.Printf("E%d", e)
-		}
-		var ex exemplar.Exemplar
-		for p.Exemplar(&ex) {
-			fmt.Printf(" ex=%v", ex)
-			ex = exemplar.Exemplar{}
-		}
-		fmt.Println()
+	return "(zp " + strconv.FormatInt(v, 10) + ")"
+}
+
+func numLit(v float64) string {
+	switch {
+	case math.IsNaN(v):
+		return "NaN"
+	case math.IsInf(v, 1):
+		return "PInf"
+	case math.IsInf(v, -1):
+		return "NInf"
 	}
+	k := v * 8
+	if k != math.Trunc(k) || math.Abs(k) > 1<<52 {
+		panic(unrepresentable{v})
+	}
+	return "(F " + zlit(int64(k)) + ")"
+}
+
+func strLit(s string) string {
+	for i := 0; i < len(s); i++ {
+		if s[i] < 32 || s[i] > 126 {
+			panic("non-printable string in case: " + strconv.Quote(s))
+		}
+	}
+	return `"` + strings.ReplaceAll(s, `"`, `""`) + `"`
+}
+
+// interner: every distinct string and label set of a shard becomes one Definition in the
+// shard's preamble (Coq elaborates a string literal constructor by constructor; repeating
+// "__name__" thousands of times dominated the evaluation time).
+type interner struct {
+	strs  map[string]string
+	lsets map[string]string
+	defs  []string
+}
+
+func newInterner() *interner { return &interner{strs: map[string]string{}, lsets: map[string]string{}} }
+
+func (n *interner) str(s string) string {
+	if v, ok := n.strs[s]; ok {
+		return v
+	}
+	v := "s" + strconv.Itoa(len(n.strs))
+	n.strs[s] = v
+	n.defs = append(n.defs, "Definition "+v+" : string := "+strLit(s)+".")
+	return v
+}
+
+func (n *interner) lset(pairs []string) string {
+	key := strings.Join(pairs, ";")
+	if v, ok := n.lsets[key]; ok {
+		return v
+	}
+	v := "L" + strconv.Itoa(len(n.lsets))
+	n.lsets[key] = v
+	n.defs = append(n.defs, "Definition "+v+" : labels := "+gallina.List(pairs)+".")
+	return v
+}
+
+var in = newInterner()
+
+func sampleLit(o obsEntry) string {
+	ls := make([]string, len(o.Lset))
+	for i, kv := range o.Lset {
+		ls[i] = "(" + in.str(kv[0]) + ", " + in.str(kv[1]) + ")"
+	}
+	ts := "nots"
+	if o.Ts != nil {
+		ts = "(ts " + zlit(*o.Ts) + ")"
+	}
+	ex := make([]string, len(o.Ex))
+	for i, e := range o.Ex {
+		t := "nots"
+		if e.Ts != nil {
+			t = "(ts " + zlit(*e.Ts) + ")"
+		}
+		ex[i] = "ex " + zlit(int64(e.ID)) + " " + t
+	}
+	return "(mkS " + in.lset(ls) + " " + ts + " " + zlit(o.St) + " " + gallina.List(ex) + ")"
+}
+
+func entryLit(o obsEntry, base bool) string {
+	pfx := "O"
+	if base {
+		pfx = "B"
+	}
+	switch o.Kind {
+	case "series":
+		return pfx + "Series " + sampleLit(o) + " " + numLit(o.Val)
+	case "hist":
+		return pfx + "Hist " + sampleLit(o) + " " + zlit(int64(o.Hid))
+	case "type":
+		return pfx + "Type " + in.str(o.Name) + " " + zlit(int64(o.Typ))
+	case "other":
+		return pfx + "Other " + zlit(int64(o.OKind)) + " " + in.str(o.A) + " " + in.str(o.B)
+	case "nhcb":
+		if base {
+			panic("custom-bucket histogram in the base stream")
+		}
+		bs := make([]string, len(o.Bounds))
+		for i, b := range o.Bounds {
+			bs[i] = numLit(b)
+		}
+		cs := make([]string, len(o.Cnts))
+		for i, c := range o.Cnts {
+			k := c * 8
+			if k != math.Trunc(k) {
+				panic(unrepresentable{c})
+			}
+			cs[i] = zlit(int64(k))
+		}
+		k := o.Count * 8
+		if k != math.Trunc(k) {
+			panic(unrepresentable{o.Count})
+		}
+		return "ONhcb " + sampleLit(o) + " (mkNH " + gallina.Bool(o.Float) + " " + zlit(int64(k)) + " " + numLit(o.Sum) + " " + gallina.List(bs) + " " + gallina.List(cs) + ")"
+	}
+	panic("entryLit: " + o.Kind)
+}
+
+func short(o obsEntry) string {
+	ts := "-"
+	if o.Ts != nil {
+		ts = strconv.FormatInt(*o.Ts, 10)
+	}
+	switch o.Kind {
+	case "series":
+		return fmt.Sprintf("S %v ts=%s v=%g st=%d ex=%v", o.Lset, ts, o.Val, o.St, o.Ex)
+	case "hist":
+		return fmt.Sprintf("H %v ts=%s id=%d st=%d ex=%v", o.Lset, ts, o.Hid, o.St, o.Ex)
+	case "nhcb":
+		return fmt.Sprintf("NHCB %v ts=%s float=%v count=%g sum=%g bounds=%v counts=%v st=%d ex=%v", o.Lset, ts, o.Float, o.Count, o.Sum, o.Bounds, o.Cnts, o.St, o.Ex)
+	case "type":
+		return fmt.Sprintf("TYPE %s %d", o.Name, o.Typ)
+	}
+	return fmt.Sprintf("OTHER %d %q %q", o.OKind, o.A, o.B)
+}
+
+// runBoth parses the scenario without and with conversion on the real code.
+func runBoth(sc *scenario, known map[int]exm) (payload string, base, out []obsEntry, beof, oeof bool, berr, oerr string) {
+	st := labels.NewSymbolTable()
+	switch sc.Format {
+	case "scripted":
+		bp := &scripted{es: sc.es, failAt: sc.FailAt}
+		base, beof, berr = record(bp, sc.ParseST, known)
+		wp := textparse.NewNHCBParser(&scripted{es: sc.es, failAt: sc.FailAt}, st, sc.Keep, sc.ParseST)
+		out, oeof, oerr = record(wp, sc.ParseST, known)
+		return
+	case "text":
+		payload = renderText(sc.es)
+		if sc.NoEOF {
+			payload += "!!! not a sample line\n"
+		}
+	case "om":
+		payload = renderOM(sc.es, !sc.NoEOF)
+	}
+	ct := map[string]string{"text": "text/plain", "om": "application/openmetrics-text"}[sc.Format]
+	bp, err := textparse.New([]byte(payload), ct, st, textparse.ParserOptions{
+		KeepClassicOnClassicAndNativeHistograms: sc.Keep, OpenMetricsSkipSTSeries: sc.ParseST})
+	if err != nil || bp == nil {
+		panic(fmt.Sprint("textparse.New: ", err))
+	}
+	base, beof, berr = record(bp, sc.ParseST, known)
+	wp, err := textparse.New([]byte(payload), ct, labels.NewSymbolTable(), textparse.ParserOptions{
+		ConvertClassicHistogramsToNHCB:          true,
+		KeepClassicOnClassicAndNativeHistograms: sc.Keep, OpenMetricsSkipSTSeries: sc.ParseST})
+	if err != nil || wp == nil {
+		panic(fmt.Sprint("textparse.New: ", err))
+	}
+	out, oeof, oerr = record(wp, sc.ParseST, known)
+	return
 }
 
 func main() {
-	in := `# TYPE h histogram
-h_bucket{a="1",le="1"} 2 1000
-h_bucket{a="1",le="+Inf"} 5 1000
-h_count{a="1"} 5 1000
-h_sum{a="1"} 7.5 1000
-h_bucket{a="2",le="1"} 1 2000
-h_bucket{a="2",le="+Inf"} 3 2000
-h_count{a="2"} 3 2000
-h_sum{a="2"} 1.5 2000
-# TYPE g gauge
-g 1
-`
-	for _, keep := range []bool{false, true} {
-		fmt.Println("--- text keep=", keep)
-		dump(in, "text/plain", textparse.ParserOptions{ConvertClassicHistogramsToNHCB: true, KeepClassicOnClassicAndNativeHistograms: keep})
+	f := gallina.ParseFlags()
+	meta := gallina.NewMeta("C36", f.Seed, f.Tier)
+	meta.Rule = "one case = one generated exposition (text/plain, OpenMetrics or scripted entry stream; 1-4 families, several label sets, bucket/count/sum order permuted, missing +Inf/_count/_sum, duplicate and out-of-order le, float counts, invalid histograms, non-member series, timestamps, exemplars, start timestamps, parse errors) x keep-classic x parseST, parsed by the real parser without and with NHCB conversion; streams: corpus of reproducers, clean (8 of 15), and one stream per known-finding shape; non-trivial = the base stream contains at least one classic histogram series; distinct by (format, options, payload/entries)"
+	const header = "From Coq Require Import List ZArith String Uint63.\nFrom Verif Require Import model.Nhcb corr.CorrC36.\nImport ListNotations.\nOpen Scope string_scope.\nOpen Scope Z_scope.\n"
+	cf := &gallina.CaseFile{Dir: f.Out, Type: "case", PerShard: 0, Footer: gallina.StdFooter}
+	inShard := 0
+	flush := func() {
+		cf.Preamble = header + strings.Join(in.defs, "\n") + "\n"
+		cf.Flush()
+		in = newInterner()
+		inShard = 0
 	}
-	om := `# TYPE h histogram
-h_bucket{a="1",le="1"} 2 1
-h_bucket{a="1",le="+Inf"} 5 1
-h_count{a="1"} 5 1
-h_sum{a="1"} 7.5 1
-h_bucket{a="2",le="1"} 1
-h_bucket{a="2",le="+Inf"} 3
-h_count{a="2"} 3
-h_sum{a="2"} 1.5
-# EOF
-`
-	fmt.Println("--- om")
-	dump(om, "application/openmetrics-text", textparse.ParserOptions{ConvertClassicHistogramsToNHCB: true})
+	seen := map[string]bool{}
+	id := 0
+
+	emit := func(sc *scenario, known map[int]exm, corpus string) {
+		defer func() {
+			if r := recover(); r != nil {
+				if u, ok := r.(unrepresentable); ok {
+					meta.Hit("skipped-unrepresentable")
+					meta.Notes = append(meta.Notes, fmt.Sprintf("skipped a case: value %v is not a small dyadic", u.v))
+					return
+				}
+				panic(r)
+			}
+		}()
+		payload, base, out, beof, oeof, berr, oerr := runBoth(sc, known)
+		if strings.HasPrefix(berr, "harness:") || strings.HasPrefix(oerr, "harness:") {
+			panic(berr + oerr)
+		}
+		// le table: strconv.ParseFloat of every le label value in the base stream
+		tab := map[string]string{}
+		for _, o := range base {
+			for _, kv := range o.Lset {
+				if kv[0] == "le" {
+					if v, err := strconv.ParseFloat(kv[1], 64); err == nil {
+						tab[kv[1]] = numLit(v)
+					}
+				}
+			}
+		}
+		keys := make([]string, 0, len(tab))
+		for k := range tab {
+			keys = append(keys, k)
+		}
+		sort.Strings(keys)
+		tl := make([]string, len(keys))
+		for i, k := range keys {
+			tl[i] = "(" + in.str(k) + ", " + tab[k] + ")"
+		}
+		bl := make([]string, len(base))
+		nontrivial := false
+		for i, o := range base {
+			bl[i] = entryLit(o, true)
+		}
+		ol := make([]string, len(out))
+		outS := make([]string, len(out))
+		nh := 0
+		for i, o := range out {
+			ol[i] = entryLit(o, false)
+			outS[i] = short(o)
+			if o.Kind == "nhcb" {
+				nh++
+			}
+		}
+		var entries []string
+		if sc.Format == "scripted" {
+			for _, o := range base {
+				entries = append(entries, short(o))
+			}
+		}
+		key := fmt.Sprint(sc.Format, sc.Keep, sc.ParseST, sc.NoEOF, payload, entries)
+		if seen[key] {
+			meta.Hit("duplicate-skipped")
+			return
+		}
+		seen[key] = true
+		for _, e := range sc.es {
+			if e.Kind == "series" && (strings.HasSuffix(e.Name, "_bucket") || strings.HasSuffix(e.Name, "_count") || strings.HasSuffix(e.Name, "_sum")) {
+				nontrivial = true
+			}
+		}
+		term := fmt.Sprintf("mkCase %s %s %s %s\n %s\n %s %s\n %s %s",
+			zlit(int64(id)), gallina.Bool(sc.Keep), gallina.Bool(sc.ParseST), gallina.Bool(sc.Format == "om"),
+			gallina.List(tl), gallina.List(bl), gallina.Bool(beof), gallina.List(ol), gallina.Bool(oeof))
+		cf.Add(term)
+		inShard++
+		if inShard >= 150 {
+			flush()
+		}
+		var classes []string
+		for c := range sc.classes {
+			classes = append(classes, c)
+			meta.Hit(c)
+		}
+		sort.Strings(classes)
+		meta.Hit("format-" + sc.Format)
+		meta.Hit("shape-" + sc.Shape)
+		meta.Hit(fmt.Sprintf("keep-%v", sc.Keep))
+		switch {
+		case nh == 0:
+			meta.Hit("nhcb-0")
+		case nh == 1:
+			meta.Hit("nhcb-1")
+		default:
+			meta.Hit("nhcb-many")
+		}
+		if nontrivial {
+			meta.Nontrivial++
+		}
+		d := desc{scenario: sc, Payload: payload, Entries: entries, Classes: classes, BaseErr: berr, OutErr: oerr, Out: outS}
+		if corpus != "" {
+			d.Classes = append(d.Classes, "corpus:"+corpus)
+		}
+		meta.Case(id, d)
+		meta.Evaluations++
+		id++
+	}
+
+	// corpus: fixed reproducers first
+	for _, c := range corpus() {
+		emit(c.sc, c.known, c.name)
+	}
+	n := f.Count(420, 30000)
+	for i := 0; i < n; i++ {
+		r := gen.Fork(f.Seed, i)
+		kind := 0
+		if k := i % 15; k >= 8 {
+			kind = k - 7 // 1..7
+		}
+		sc, known := build(r, kind)
+		emit(sc, known, "")
+	}
+	if inShard > 0 || id == 0 {
+		flush()
+	}
+	meta.Write(f.Out)
+	if len(os.Getenv("VERIF_C36_DEBUG")) > 0 {
+		fmt.Println("cases:", id)
+	}
 }
